@@ -8,7 +8,7 @@
 use core::sync::atomic::{AtomicU64, Ordering};
 
 /// Number of counter slots.
-pub const SLOTS: usize = 128;
+pub const SLOTS: usize = 256;
 
 #[allow(clippy::declare_interior_mutable_const)]
 const ZERO: AtomicU64 = AtomicU64::new(0);
